@@ -47,7 +47,7 @@ WSS = ["", "", "\n", "  ", "\r\n\t", " \n "]
 
 def plan(tier):
     if tier == "thorough":
-        return dict(runs=2400, wall_budget=1500, per_run_timeout=300, selftest=12, shrink_evals=200, shrink_seconds=90)
+        return dict(runs=8000, wall_budget=1500, per_run_timeout=300, selftest=12, shrink_evals=200, shrink_seconds=90)
     return dict(runs=64, wall_budget=200, per_run_timeout=240, selftest=4, shrink_evals=100, shrink_seconds=40)
 
 
